@@ -51,7 +51,7 @@ def _raise_found(msg):
 
 
 def load_known(pid):
-    if not os.path.exists(KNOWN_FILE):
+    if not os.path.exists(KNOWN_FILE) or os.environ.get("FV_IGNORE_KNOWN"):
         return []
     with open(KNOWN_FILE) as f:
         data = json.load(f)
